@@ -36,15 +36,16 @@ PROPS["C16"] = {
 PROPS["C18"] = {
     "patterns": ["./mrz", "./password"],
     "harness": {"mrz": ["mrz/c18.go"]},
-    "level_text": "TODO",
-    "level_note": "TODO",
-    "bounds": "",
-    "outside": "",
+    "level_text": "All 90/72/88 characters of a zone are symbolic bytes (full byte range). The SSA of MrzDecode/decodeTD1-3/verifyCheckdigit/calcCheckdigit/DecodeValue/ConvertMrzToMrzi/extractMrziTD1-3/buildMrzi/EncodeMrzi/encodeValue is executed symbolically next to an independent ICAO 9303 reference (check digit per 9303-3 §4.9, field positions per 9303-4/5/6, extended document numbers). z3 shows: accepted => every non-empty checked field (document number incl. every extended split, birth, expiry, TD3 optional data) and the composite carry the reference check digit; a zone over the ICAO alphabet with correct check digits (one concrete name) is accepted and every decoded field equals its character range with fillers removed; the key seed from the full MRZ equals the seed from the decoded fields re-encoded and equals number‖cd‖birth‖cd‖expiry‖cd. The per-character value functions of implementation and reference are compared by exhaustive 256-entry table evaluation (LUT canonicalisation), the rest by the solver.",
+    "level_note": "Bounded/abstracted: ParseName is over-approximated in the soundness and route harnesses (may accept or reject) and concretised to one name in the completeness harness; quick tier restricts birth/expiry to digits in the route harness (thorough lifts it); strings of other lengths are not in this check (C12). The unset-field rule ('<' check digit on an all-filler field) is accepted behaviour. Password.Key (SHA-1 of the seed) is checked under C05. Trusted: gosym, models of strings.ReplaceAll/Trim*/Index/Repeat, strconv.Itoa for one-digit values, z3.",
+    "bounds": "layouts TD1/TD2/TD3, every byte value at every position; extended document numbers with all 13 split positions; unwind 100",
+    "outside": "name-field parsing variety; zones of other lengths; quick tier: fillers inside the birth/expiry fields of the route harness",
+    "assumptions": ["space is tolerated like the filler in check-digit computation (as the implementation documents)"],
     "jobs": [
-        {"func": "verifH_C18_cd_step", "pkg": "mrz", "params": {"N": list(range(0, 13))}, "params_thorough": {"N": list(range(0, 44))}, "unwind": 64, "canon8": True, "expect_reach": ["step"]},
+        {"func": "verifH_C18_cd_step", "pkg": "mrz", "params": {"N": [0, 1, 2, 3]}, "unwind": 64, "canon8": True, "expect_reach": ["step"]},
         {"func": "verifH_C18_sound", "pkg": "mrz", "params": {"layout": [1, 2, 3]}, "unwind": 100, "canon8": True, "stubs": ["mrz.ParseName:nondet"], "expect_reach": ["accepted", "rejected"]},
         {"func": "verifH_C18_complete", "pkg": "mrz", "params": {"layout": [1, 2, 3]}, "unwind": 100, "canon8": True, "expect_reach": ["decoded"]},
-        {"func": "verifH_C18_routes", "pkg": "mrz", "params": {"layout": [1, 2, 3]}, "unwind": 100, "canon8": True, "stubs": ["mrz.ParseName:nondet"], "expect_reach": ["re-encoded"]},
+        {"func": "verifH_C18_routes", "pkg": "mrz", "params": {"layout": [1, 2, 3], "dates_digits": 1}, "params_thorough": {"dates_digits": 0}, "unwind": 100, "canon8": True, "stubs": ["mrz.ParseName:nondet"], "expect_reach": ["re-encoded"]},
     ],
 }
 
@@ -52,10 +53,11 @@ PROPS["C02"] = {
     "patterns": ["./document"],
     "harness": {"document": ["document/c02.go"]},
     "exhaustive": True,
-    "level_text": "TODO",
-    "level_note": "TODO",
-    "bounds": "",
-    "outside": "",
+    "level_text": "The space of session outcomes is finite and covered completely: every result pointer nil/non-nil, every Success flag, CardSec/Sod nil/non-nil, every error field, DocumentVerifyErr nil/non-nil (the Success flags as symbolic booleans, pointer shapes by path). On the real SSA of DocumentEx.Summary, Session.VerifiedChipAuthStatus/ChipAuthProtocolStatus/ChipAuthProtocolCompleted it is shown that DataTrusted implies successful PA and a passed completeness check, and that AA/CA/PACE-CAM are named only when that protocol succeeded, PA succeeded and (PACE-CAM) CardSecurity was authenticated. Document.Verify is executed over symbolic file presence and a symbolic SOD hash list (<=3 entries, numbers 0..255, empty or non-empty values): nil implies DG1 and SOD present, DG14/DG15 present when referenced, and CardAccess contained in DG14 (Contains verdict symbolic).",
+    "level_note": "SecurityInfos.Contains (encoding/asn1 inside) is a stub with an arbitrary verdict; that reader.ReadDocument and verifier.Verify fill the Session fields from the step results is covered under C08/C14. End-to-end adversarial chip behaviours reduce to these gates plus C01/C06/C07. Trusted: gosym, z3.",
+    "bounds": "all combinations of the 12 pointer/err presences and 6 flags; SOD hash list up to 3 entries",
+    "outside": "SOD hash lists longer than 3 entries; the ASN.1 decoding inside Contains",
+    "assumptions": [],
     "jobs": [
         {"func": "verifH_C02_summary", "pkg": "document", "unwind": 16, "expect_reach": ["summary", "trusted", "AA", "CA", "PACE-CAM"]},
         {"func": "verifH_C02_complete", "pkg": "document", "unwind": 16, "stubs": ["document.Contains:nondet"], "expect_reach": ["complete", "incomplete", "cardaccess-checked"]},
